@@ -37,7 +37,8 @@ UName(t) ==
     [] t = "F.rms_norm" -> "U.rms_norm" [] t = "F.embedding" -> "U.embedding" [] t = "torch.conv1d" -> "U.conv1d"
     [] t = "F.scaled_dot_product_attention" -> "U.scaled_dot_product_attention" [] t = "F.cross_entropy" -> "U.cross_entropy"
     [] t = "F.mse_loss" -> "U.mse_loss" [] t = "torch.add" -> "U.add" [] OTHER -> t
-AddTargets == {"op.add", "op.iadd"}
+\* every way of writing an addition: a + b, a += b, torch.add(a, b), a.add(b), a.add_(b)
+AddTargets == {"op.add", "op.iadd", "torch.add", "m:add", "m:add_"}
 SelfAttnTargets == {"F.scaled_dot_product_attention", "U.scaled_dot_product_attention", "F.softmax", "U.softmax"}
 HasConstraintParam == {"U.gelu", "U.silu", "U.softmax", "U.matmul", "U.linear", "U.linear_readout", "U.conv1d", "U.add"}
 
@@ -110,7 +111,9 @@ IsCall(n) == n.op = "call"
 StepP1(s) ==
   IF s.cur = 0 THEN [s EXCEPT !.pc = "P2"]
   ELSE LET n == s.G.nodes[s.cur] IN
-       IF IsCall(n) /\ (UserTo(s.umap, n.tgt) # "" \/ n.tgt \in TorchMapDom)
+       \* additions are left for the classification of P3 (before the fix torch.add was mapped to U.add right here, so
+       \* torch.add(x, f(x)) was never recognised as a residual connection: Legacy "torch_add_mapped_first")
+       IF IsCall(n) /\ (UserTo(s.umap, n.tgt) # "" \/ (n.tgt \in TorchMapDom /\ (n.tgt \notin AddTargets \/ "torch_add_mapped_first" \in Legacy)))
        THEN LET byUser == UserTo(s.umap, n.tgt) # ""
                 \* F.softmax's private `_stacklevel` (passed by nn.Softmax) is not an argument of U.softmax: dropped by the built-in map
                 kw2 == IF byUser THEN n.kw ELSE SelectSeq(n.kw, LAMBDA e : e.key # "_stacklevel")
